@@ -8,31 +8,44 @@ typedef struct { int _o; } valloc_vstr_c8; static inline valloc_vstr_c8 valloc_v
 typedef struct { const vstr_c8* p; size_t n; } std_initializer_list_vstr_c8;
 typedef struct { size_t count; int last_id; } vvec_vstr_c8;                                  /* list of messages: length + id of the last message */
 typedef struct { vstr_c8 first; vvec_vstr_c8 second; } vpair;
-typedef struct { size_t paths; _Bool has_path; vpair entry; unsigned finds, emplaces; } std_map_vstr_c8_vvec_vstr_c8_std_less_vstr_c8;   /* abstract map: number of distinct paths + the entry of THE path of this call */
+typedef struct { size_t paths; _Bool has_path; vpair entry; unsigned finds, emplaces; _Bool has_next; vpair next; } std_map_vstr_c8_vvec_vstr_c8_std_less_vstr_c8;   /* next: the entry of the smallest GREATER path (an ordered map: it may have this path as a prefix, e.g. "/Items" < "/Items/1/Qty") */
+static _Bool g_next_has_prefix;   /* abstract map: number of distinct paths + the entry of THE path of this call */
 typedef struct { vpair* p; } std_Rb_tree_iterator_std_pair_kvstr_c8_vvec_vstr_c8;
 typedef struct { int _opaque; } std_variant_vstr_c8_vstr_wc_vstr_c16_vstr_c32;
 #define MAP std_map_vstr_c8_vvec_vstr_c8_std_less_vstr_c8
 #define IT std_Rb_tree_iterator_std_pair_kvstr_c8_vvec_vstr_c8
 static inline IT std_map_vstr_c8_vvec_vstr_c8_std_less_vstr_c8_find__rkvstr_c8(MAP* m, const vstr_c8* k) { IT it; m->finds++; it.p = m->has_path ? &m->entry : (vpair*)0; return it; }
+/* ordered-map operations a rewrite of the lookup may use */
+static inline IT std_map_vstr_c8_vvec_vstr_c8_std_less_vstr_c8_lower_bound__rkvstr_c8(MAP* m, const vstr_c8* k) { IT it; m->finds++; it.p = m->has_path ? &m->entry : (m->has_next ? &m->next : (vpair*)0); return it; }
+static inline IT std_map_vstr_c8_vvec_vstr_c8_std_less_vstr_c8_upper_bound__rkvstr_c8(MAP* m, const vstr_c8* k) { IT it; m->finds++; it.p = m->has_next ? &m->next : (vpair*)0; return it; }
+static inline size_t vstr_c8_size___k(const vstr_c8* s) { return 8; }
+static inline int vstr_c8_compare__u64_u64_rkvstr_c8_k(const vstr_c8* s, unsigned long pos, unsigned long n, const vstr_c8* o) { if (s->id == o->id) return 0; if (s->id == 2 && o->id == 1) return g_next_has_prefix ? 0 : 1; return 1; }
+static inline int vstr_c8_compare__rkvstr_c8_k(const vstr_c8* s, const vstr_c8* o) { return s->id == o->id ? 0 : (s->id < o->id ? -1 : 1); }
+static inline _Bool m_std_operator_op_eq_c8__rkvstr_c8_rkvstr_c8(const vstr_c8* a, const vstr_c8* b) { return a->id == b->id; }
+static inline _Bool m_std_operator_op_ne__rkstd_Rb_tree_iterator_std_pair_kvstr_c8_vvec_vstr_c8_rkstd_Rb_tree_iterator_std_pair_kvstr_c8_vvec_vstr_c8(const std_Rb_tree_iterator_std_pair_kvstr_c8_vvec_vstr_c8* a, const std_Rb_tree_iterator_std_pair_kvstr_c8_vvec_vstr_c8* b) { return a->p != b->p; }
+typedef std_Rb_tree_iterator_std_pair_kvstr_c8_vvec_vstr_c8 std_Rb_tree_const_iterator_std_pair_kvstr_c8_vvec_vstr_c8;
+static inline std_Rb_tree_iterator_std_pair_kvstr_c8_vvec_vstr_c8 std_Rb_tree_const_iterator_std_pair_kvstr_c8_vvec_vstr_c8_ctor__rkstd_Rb_tree_iterator_std_pair_kvstr_c8_vvec_vstr_c8(const std_Rb_tree_iterator_std_pair_kvstr_c8_vvec_vstr_c8* i) { return *i; }
 static inline IT std_map_vstr_c8_vvec_vstr_c8_std_less_vstr_c8_end(MAP* m) { IT it; it.p = 0; return it; }
 static inline _Bool m_std_operator_op_eq__rkstd_Rb_tree_iterator_std_pair_kvstr_c8_vvec_vstr_c8_rkstd_Rb_tree_iterator_std_pair_kvstr_c8_vvec_vstr_c8(const IT* a, const IT* b) { return a->p == b->p; }
 static inline vpair* std_Rb_tree_iterator_std_pair_kvstr_c8_vvec_vstr_c8_op_arrow___k(const IT* it) { __CPROVER_assert(it->p != 0, "MODEL: the end iterator is not dereferenced"); return it->p; }
 static inline vvec_vstr_c8 vvec_vstr_c8_ctor__std_initializer_list_vstr_c8_rkvalloc_vstr_c8(std_initializer_list_vstr_c8 il, const valloc_vstr_c8* a) { vvec_vstr_c8 v; v.count = il.n; v.last_id = il.n ? il.p[il.n - 1].id : 0; return v; }
 static inline void vvec_vstr_c8_push_back__xvstr_c8(vvec_vstr_c8* v, vstr_c8* s) { v->count++; v->last_id = s->id; }
 static inline void std_map_vstr_c8_vvec_vstr_c8_std_less_vstr_c8_try_emplace_vvec_vstr_c8__xvstr_c8_xvvec_vstr_c8(MAP* m, vstr_c8* k, vvec_vstr_c8* v) { m->emplaces++; if (!m->has_path) { m->has_path = 1; m->paths++; m->entry.first = *k; m->entry.second = *v; } }
+static inline IT std_map_vstr_c8_vvec_vstr_c8_std_less_vstr_c8_emplace_hint_vstr_c8_vvec_vstr_c8__std_Rb_tree_const_iterator_std_pair_kvstr_c8_vvec_vstr_c8_xvstr_c8_xvvec_vstr_c8(MAP* m, IT hint, vstr_c8* k, vvec_vstr_c8* v) { (void)hint; m->emplaces++; if (!m->has_path) { m->has_path = 1; m->paths++; m->entry.first = *k; m->entry.second = *v; } IT it; it.p = &m->entry; return it; }
 static inline size_t std_map_vstr_c8_vvec_vstr_c8_std_less_vstr_c8_size___k(const MAP* m) { return m->paths; }
 static inline _Bool std_map_vstr_c8_vvec_vstr_c8_std_less_vstr_c8_empty___k(const MAP* m) { return m->paths == 0; }
 #include "gen.h"
 #include "gen.c"
 static struct SerializationOptions g_opt;
 void h_add(void) { struct SerializationContext c; c.mSerializationOptions = &g_opt; g_opt.maxValidationErrors = nondet_uint();
-  c.mErrorsMap.paths = nondet_size_t(); c.mErrorsMap.has_path = nondet_bool(); c.mErrorsMap.entry.second.count = nondet_size_t(); c.mErrorsMap.entry.second.last_id = nondet_int(); c.mErrorsMap.finds = 0; c.mErrorsMap.emplaces = 0;
+  c.mErrorsMap.paths = nondet_size_t(); c.mErrorsMap.has_path = nondet_bool(); c.mErrorsMap.entry.second.count = nondet_size_t(); c.mErrorsMap.entry.second.last_id = nondet_int(); c.mErrorsMap.finds = 0; c.mErrorsMap.emplaces = 0; c.mErrorsMap.has_next = nondet_bool(); c.mErrorsMap.next.first.id = 2; c.mErrorsMap.next.second.count = nondet_size_t(); c.mErrorsMap.next.second.last_id = nondet_int(); g_next_has_prefix = nondet_bool(); size_t next_n0 = c.mErrorsMap.next.second.count; int next_last0 = c.mErrorsMap.next.second.last_id;
   __CPROVER_assume(c.mErrorsMap.paths < ((size_t)1 << 60) && c.mErrorsMap.entry.second.count < ((size_t)1 << 60) && (!c.mErrorsMap.has_path || (c.mErrorsMap.paths >= 1 && c.mErrorsMap.entry.second.count >= 1)));   /* map invariant: the path's entry is counted and non-empty */
   __CPROVER_assume(g_opt.maxValidationErrors == 0 || c.mErrorsMap.paths < g_opt.maxValidationErrors);   /* otherwise the exception would already have been raised by an earlier call */
   size_t paths0 = c.mErrorsMap.paths; _Bool had = c.mErrorsMap.has_path; size_t n0 = had ? c.mErrorsMap.entry.second.count : 0;
   vstr_c8 path; path.id = 1; vstr_c8 msg; msg.id = nondet_int(); __verif_exc = 0;
   verif_inst_add_error__rSerializationContext_vstr_c8_vstr_c8(&c, path, msg);
   VERIF_ASSERT("C17", c.mErrorsMap.has_path && c.mErrorsMap.entry.second.count == n0 + 1 && c.mErrorsMap.entry.second.last_id == msg.id, "the message is appended at the end of the list of its field path (declaration/call order is kept)");
+  VERIF_ASSERT("C17", c.mErrorsMap.next.second.count == next_n0 && c.mErrorsMap.next.second.last_id == next_last0, "the messages of every OTHER field stay untouched - also of a field whose path merely starts with this path");
   VERIF_ASSERT("C17", c.mErrorsMap.paths == paths0 + (had ? 0 : 1), "a new field path is created exactly when the field had no error before");
   VERIF_ASSERT("C17", (__verif_exc == EXC_ValidationException) == (g_opt.maxValidationErrors > 0 && c.mErrorsMap.paths == g_opt.maxValidationErrors) && (__verif_exc == 0 || __verif_exc == EXC_ValidationException), "ValidationException is raised immediately exactly when maxValidationErrors > 0 and that many distinct fields have failed");
   VERIF_CANARY(); }
